@@ -48,8 +48,10 @@ def gen_cases(seed, tier):
         # boundary lengths: the last batch is exactly full (ns = nbatch + k * stride), one sample less, one more, and a single full batch
         dict(ns=8192 + 2 * 6144, nbatch=8192, workers=3, n=64), dict(ns=8192, nbatch=8192, workers=2, n=64),
         dict(ns=6144 + 3 * 4096 - 1, nbatch=6144, workers=4, n=64), dict(ns=4096 + 5 * 2048 + 1, nbatch=4096, workers=6, n=64),
+        # a recording a little longer than one batch: the second (last) batch holds fewer than 1024 new samples and is the FIRST batch of every later worker
+        dict(ns=8192 + 700, nbatch=8192, workers=3, n=64),
     ]
-    k = 12 if tier == "quick" else 160
+    k = 13 if tier == "quick" else 160
     for i in range(k):
         if i < len(base):
             c = dict(base[i])
@@ -59,7 +61,7 @@ def gen_cases(seed, tier):
             if i % 5 == 0:      # aligned lengths: the last batch exactly full, +-1
                 c["ns"] = c["nbatch"] + int(rng.integers(0, 8)) * (c["nbatch"] - 2 * TAPER) + int(rng.choice([-1, 0, 0, 1]))
         c["ncout"] = [None, None, "n", "less"][i % 4]      # explicit output width, crossed with every other option
-        c.update(cls="sched", seed=seed * 1000 + i, opt=(i % 7) if i < 8 else ([2, 7, 2, 6][i - 8] if i < 12 else i % 8), _w=6 + c["ns"] / 10000 * (c["n"] / 96))
+        c.update(cls="sched", seed=seed * 1000 + i, opt=(i % 7) if i < 8 else ([2, 7, 2, 6, 0][i - 8] if i < 13 else i % 8), _w=6 + c["ns"] / 10000 * (c["n"] / 96))
         cases.append(c)
     for i in range(2 if tier == "quick" else 10):
         cases.append(dict(cls="loky", ns=int(rng.integers(14000, 40000)), nbatch=int(rng.choice([4096, 8192])), n=64, seed=seed * 1000 + 500 + i,
